@@ -159,6 +159,25 @@ func evalNameArray(node *jparse.NameNode, data reflect.Value, env *environment) 
 			return undefined, err
 		}
 
+		// Looking up a name in a nested array returns a sequence.
+		// Add its values (not the sequence object itself) to the
+		// results. Likewise, array values are flattened into the
+		// results, as they are when the array is not nested.
+		if seq, ok := asSequence(v); ok {
+			results.values = append(results.values, seq.values...)
+			continue
+		}
+
+		if jtypes.IsArray(v) {
+			v = arrayify(v)
+			for j, N := 0, v.Len(); j < N; j++ {
+				if vj := v.Index(j); vj.IsValid() && vj.CanInterface() {
+					results.Append(vj.Interface())
+				}
+			}
+			continue
+		}
+
 		if v.IsValid() && v.CanInterface() {
 			results.Append(v.Interface())
 		}
